@@ -52,7 +52,7 @@ PROBES = ["event_queued_while_bytes_buffered", "two_scheduled_due", "equal_when"
           "threadsafe_event_woke_blocked_request", "callback_preempted_between_append_and_write", "sentinel_injected",
           "sigwinch_wakeup", "scheduled_woke_request", "pipe_full_block", "multi_kb_burst", "trigger_created_mid_run",
           "cursor_query", "cursor_query_with_typeahead", "typed_before_enter", "context_reentered",
-          "app_on_non_main_thread"]
+          "app_on_non_main_thread", "trigger_fired_from_signal_handler"]
 TRIGGERS = {}
 
 
@@ -110,6 +110,9 @@ def gen_plan(seed, tier, index=0, avoid=()):
         "keynames": rng.choice(("bytes", "bytes", "bytes", "curtsies", "curses")),
         "keynames_enum": rng.random() < 0.3,
         "locale_name": rng.choice(("utf-8", "UTF-8", "utf8")),
+        "falsy_every": rng.choice((0, 0, 0, 2, 3)),       # some injected events are falsy objects
+        "winch_trigger": False,
+        "tty_fd0": rng.random() < 0.1,                    # the stream is descriptor 0, as sys.__stdin__ is
         # the application uses the Input from a thread that is not the main thread (no signal wake-up pipe there)
         "app_main": not (faulty and rng.random() < 0.12),
         # typed before the Input context is entered / while it is left and entered again
@@ -123,6 +126,7 @@ def gen_plan(seed, tier, index=0, avoid=()):
         "overshoot": rng.choice((0.0, 1e-6, 1e-3)),
         "nts": nts,
         "split": split,
+        "_": None,
         # fault short_read: the kernel hands out fewer bytes than asked for and available (read ordinal -> cap)
         "short_reads": ({str(rng.randint(1, 30)): rng.choice((1, 2, 3, 5)) for _ in range(rng.randint(1, 4))}
                         if faulty and rng.random() < 0.2 else {}),
@@ -133,6 +137,11 @@ def gen_plan(seed, tier, index=0, avoid=()):
         # does not cover; the hook stays for hand-written plans)
         "eio_reads": [],
     }
+    del cfg["_"]
+    # a SIGWINCH handler that fires a threadsafe trigger (bpython's wiring); with the application on a worker
+    # thread the handler - and so the callback - runs on the main thread
+    cfg["winch_trigger"] = bool(faulty and nts > 0 and cfg["pipe_cap"] >= 65536
+                                and rng.random() < (0.6 if not cfg["app_main"] else 0.2))
     nmain = rng.choice((3, 6, 10, 20, rng.randint(1, 60 if tier == "quick" else 150)))
     main = []
     env = []
@@ -172,7 +181,7 @@ def gen_plan(seed, tier, index=0, avoid=()):
     storm = faulty and rng.random() < 0.15
     if storm:
         nenv += rng.randint(3, 10)
-    if faulty and rng.random() < (0.01 if tier == "thorough" else 0.003):
+    if faulty and not cfg["winch_trigger"] and rng.random() < (0.01 if tier == "thorough" else 0.003):
         # a window being dragged: a flood of SIGWINCHs during (probably) one blocked request
         t0_ = round(rng.uniform(0.0, 3.0), 4)
         for k_ in range(rng.choice((300, 1200, 2500))):
@@ -290,7 +299,8 @@ def _simp(p):
             yield q
     for key, simple in (("tick", 0.0), ("time_cost", 0.0), ("overshoot", 0.0), ("pipe_cap", 65536), ("dts", False),
                         ("read_size", 1024), ("sigint_handler", "default"), ("sigint_event", False), ("keynames", "bytes"),
-                        ("keynames_enum", False), ("app_main", True), ("pre_typed", "")):
+                        ("keynames_enum", False), ("app_main", True), ("pre_typed", ""), ("falsy_every", 0),
+                        ("winch_trigger", False), ("tty_fd0", False)):
         if cfg.get(key, simple) != simple:
             q = planmod.clone(p)
             q["cfg"][key] = simple
@@ -379,6 +389,10 @@ def _key_lengths(data):
 
 class Ev:
     world = None
+    falsy_every = 0       # every k-th event is falsy (an event class with __bool__/__len__ is legal)
+
+    def __bool__(self):
+        return not (Ev.falsy_every and self.n is not None and self.n % Ev.falsy_every == 0)
 
     def __init__(self, src=None, n=None):
         self.src, self.n = src, n
@@ -428,7 +442,7 @@ def run_plan(p, keep_log=False):
     cfg = p["cfg"]
     s = setup.make({"h": 2, "w": 10, "read_size": cfg["read_size"], "pipe_cap": cfg["pipe_cap"], "tick": cfg["tick"],
                     "time_cost": cfg["time_cost"], "overshoot": cfg["overshoot"], "yield_cap": 600000,
-                    "locale_name": cfg.get("locale_name")}, p["sched"], keep_log)
+                    "locale_name": cfg.get("locale_name"), "tty_fd0": cfg.get("tty_fd0", False)}, p["sched"], keep_log)
     world = s.world
     res = {"violation": None, "error": None, "probes": world.probes, "faults": world.faults,
            "states": set(), "nsteps": 0}
@@ -441,6 +455,7 @@ def run_plan(p, keep_log=False):
     finally:
         sys.settrace(None)
         Ev.world = None
+        Ev.falsy_every = 0
         try:
             setup.finish(s)
         except HarnessError as e:
@@ -472,12 +487,16 @@ def _execute(p, s, res):
     M = Model()
     mode = cfg["keynames"]
     thr = cfg["paste_threshold"]
-    tracer = world.make_tracer(ci.__file__)
+    import os as _os_
+    pkg = _os_.path.dirname(ci.__file__) + _os_.sep
+    hot = ("events.py", "curtsieskeys.py", "formatstring.py", "formatstringarray.py", "escseqparse.py", "window.py")
+    tracer = world.make_tracer(lambda fn: fn.startswith(pkg) and not fn.endswith(hot))
     world.thread_tracer = tracer
     # constructing the event object is a pre-emption point in the middle of the callback's line (bytecode-level
     # tracing would give more of those, but CPython's 'opcode' events differ between the first and later
     # executions of a code object in one process, which breaks exact replay)
     Ev.world = world
+    Ev.falsy_every = cfg.get("falsy_every", 0)
 
     class SEv(events.ScheduledEvent):
         def __init__(self, when):
@@ -527,6 +546,14 @@ def _execute(p, s, res):
             world.probe("sigwinch_wakeup")
         kernel.sig.post(signum)
     world.env_handlers["signal"] = env_signal
+
+    def winch_handler(signum, frame):
+        if ts_cbs:
+            world.probe("trigger_fired_from_signal_handler")
+            call_ts(0, "winch")
+    winch_handler.sim_name = "winch_fires_trigger"
+    if cfg.get("winch_trigger"):
+        kernel.sig.handlers[_signal.SIGWINCH] = winch_handler
 
     def note_arrival(data, partial_tail=0, completes=False):
         if completes:                       # second half of a split key: one key end, at its end
@@ -786,9 +813,13 @@ def _execute(p, s, res):
         elif isinstance(r, (str, bytes)):
             if not judge_key(r, si, False):
                 return
-            if thr is not None and any(n > thr for n in reads):
-                _violate(res, "burst_not_reported_as_paste", si, {"reads": reads[:4], "paste_threshold": thr,
-                                                                   "returned": repr(r)})
+        if thr is not None and any(n > thr for n in reads) and not isinstance(r, events.PasteEvent):
+            # a request that read a burst hands it out as a paste -- whatever else was deliverable too
+            _violate(res, "burst_not_reported_as_paste", si, {"reads": reads[:4], "paste_threshold": thr,
+                                                               "returned": kind})
+            return
+        if isinstance(r, (str, bytes, events.PasteEvent)):
+            pass
         # ---- events --------------------------------------------------------------------
         elif isinstance(r, events.SigIntEvent):
             M.sigint_events += 1
